@@ -10,13 +10,27 @@ SUBSTREAMS = ['c09_reader']      # goals read by the real pragmatic reader from 
 SHARD = 100
 SIZES = {'quick': 1500, 'thorough': 30000, 'search': 30000}
 RULE = ('cases: InsertionCost pairs/triples (lengths 0-8, components from the float corpus: +-0, denormals, +-inf, NaN '
-        'payloads, 2^53+-1, random bit patterns; second operand often a perturbed/padded copy of the first), exact-domain '
-        'add/sub pairs (integer values < 2^50), goals (1-5 layers, single and dominance layers) with fitness vectors from '
-        'the corpus, dominance_order on random comparison lists. non-trivial = distinct (op, operands) whose comparison '
-        'is decided after the first component or involves a zero/NaN/padding.')
+        'payloads, 2^53+-1, random bit patterns; second operand often a perturbed/padded copy of the first): cmp, ==, !=, partial_cmp, '
+        '<, <=, >, >=, x[idx] (also out of range), iter / from_iter / into_iter, max_value, Default, select_cost, and + / - '
+        '(by reference and by value, also against Default) compared BIT FOR BIT with the f64 model on every pattern (NaN results '
+        'canonical); exact-domain add/sub pairs (integer values < 2^50, lengths 0-9); candidate insertion results folded by '
+        'choose_best_result / BestResultSelector; goals (1-5 layers, single and dominance layers) with fitness vectors from '
+        'the corpus; goal contexts built by GoalContextBuilder (single, `sum` and `weighted-sum` layers, alternatives) observed along '
+        'scripted maybe_new paths: total_order, fitness, and estimate for scripted per-objective estimates; dominance_order on random '
+        'comparison lists. non-trivial = distinct (op, operands) whose comparison is decided after the first component or involves a '
+        'zero/NaN/padding.')
 TRUSTED = ['f64::total_cmp is modelled by the integer key of Base/TotalCmp.v (validated against the implementation on every run)',
-           'InsertionCost +/- modelled over Z on the exact sub-domain (integer-valued components below 2^53); f64 exactness there is validated, not proved']
-ASSUMPTIONS = ['float arithmetic on integer-valued doubles below 2^53 is exact (IEEE-754); outside that domain (x+y)-y==x is not claimed']
+           'f64 + - * are modelled by Coq.Floats.SpecFloat (SFadd / SFsub / SFmul, binary64, round to nearest even) between a decoder / '
+           'encoder of bit patterns (Model/InsCost.v); validated bit for bit against the real operators on the whole float corpus on '
+           'every run; the sign / payload of a NaN PRODUCED by an operation is not modelled (both sides report one canonical NaN)',
+           'GoalContext::get_alternatives is crate-private: its model (a map of get_alternative over the indices) is tied to the code only '
+           'through Alternative::maybe_new, which reaches every get_alternative(idx)',
+           'the multi-layer closures of the core stream (harness/src/bin/c09.rs) are copies of the ones goal_reader.rs installs; the real '
+           'ones are exercised by the sub-stream c09_reader']
+ASSUMPTIONS = ['(x+y)-y==x is claimed on the exact sub-domain only: integer-valued components (and -0.0) of magnitude below 2^52, where the '
+               'exactness of IEEE-754 + and - is PROVED for the SpecFloat model (C09_f64_add/sub_exact_on_integers); outside it the law '
+               'is false for any IEEE arithmetic (C09_icost_add_sub_all_doubles_refuted: absorption / overflow / inf-inf)',
+               'impl Sum for f64 folds from -0.0 (core::iter, Rust >= 1.83; observed: the estimate of a `sum` layer over no objective is -0.0)']
 
 
 def vec(rng, maxlen=8):
@@ -541,14 +555,29 @@ def classify(c, impl):
         labs.append('icost-lens=%s' % ('equal' if len(c['a']) == len(c['b']) else 'different'))
     return labs
 
-MANIFEST_TEXT = ('Machine-checked proof (Coq, 13 theorems, no axioms): over an executable model of InsertionCost::cmp/+/- , '
-                 'Goal::total_order with single and dominance layers and f64::total_cmp as an integer key on the bit pattern, '
-                 'the order laws hold for all vectors of all lengths and all 64-bit float patterns (NaNs, infinities, both zeros); '
-                 'single-layer goals coincide with lexicographic fitness comparison with +0/-0 merged. The model is hand-written and '
-                 'tied to /repo on every run by evaluating it inside Coq (vm_compute) on the same generated inputs as the real '
-                 'InsertionCost / Goal / GoalContext / dominance_order and diffing the results; the laws are also evaluated directly on '
-                 'the implementation outputs.')
-MANIFEST_NOTE = ('Trusted: Coq kernel + vm_compute; the harness and generators; total_cmp key model (validated each run). '
-                 '(x+y)-y==x is proved over Z (exact sub-domain of integer-valued doubles < 2^53) and validated on that domain; '
-                 'it is false for general floats (absorption) and not claimed there. Modelled not verified: Rust/TinyVec semantics.')
+MANIFEST_TEXT = ('Machine-checked proof (Coq, 77 theorems, no axioms) over an executable model of (a) InsertionCost completely: cmp, '
+                 'Eq/PartialEq/PartialOrd (all operators), Index, max_value, Default, + and - by value and by reference with f64 '
+                 'arithmetic = Coq.Floats.SpecFloat on bit patterns, InsertionResult::choose_best_result, select_cost; (b) every way the '
+                 'code configures a goal and hands out a goal context: GoalBuilder add_single/add_multi, Goal simple/subset_of/total_order/'
+                 'fitness/estimate, GoalContextBuilder, alternatives (maybe_new, get_alternatives), the pragmatic goal_reader (single '
+                 'objectives, multi-objective with `sum` / `weighted-sum`: comparator and estimate) and the vrp-scientific goal contexts. '
+                 'Proved for all inputs / all 64-bit patterns: every goal is reflexive and antisymmetric; total_order is a function of '
+                 'the reported fitness vector in layer order; goals of single layers (hence every context of the scientific readers, '
+                 'every default context, every alternative of a pragmatic context) are total preorders equal to the lexicographic '
+                 'comparison of the fitness THEY report with +0/-0 merged; Pareto layers are transitive on their strict part only '
+                 '(cycle witness for goals continuing behind such a layer); InsertionCost is a lexicographic zero-padded total order, '
+                 '== and the comparison operators agree with cmp; + / - are componentwise with +0.0 padding, Default is neutral at the '
+                 'f64 level; IEEE + and - are exact on integer-valued doubles below 2^53 (proved on SpecFloat without real numbers), so '
+                 'the f64 operators refine the Z model and (x+y)-y==x, (x-y)+y==x hold bit for bit on integer-valued vectors below 2^52 '
+                 'and up to the sign of zero with -0.0 components (refuted for all doubles: absorption); choose_best_result keeps the '
+                 'leftmost cheapest success. The model is hand-written and tied to /repo on '
+                 'every run by evaluating it inside Coq (vm_compute) on the same generated inputs as the real code (core API, real '
+                 'pragmatic and scientific readers on small documents) and diffing bit patterns; the laws are also evaluated '
+                 'directly on the implementation outputs.')
+MANIFEST_NOTE = ('Trusted: Coq kernel + vm_compute; the harness and generators; total_cmp key model and the SpecFloat model of f64 + - * '
+                 '(both validated bit for bit each run). (x+y)-y==x is proved over Z and at the f64 level on integer-valued doubles below 2^52 '
+                 '(exactness of + and - proved for the SpecFloat model); it is false for general floats (absorption) and not claimed there. '
+                 'Observations recorded, not findings: a multi-objective layer over ONE objective keeps -0.0 below +0.0 (add_single merges '
+                 'them); max_value is not a top element (+inf, NaN, [MAX, x>0] are above it); == of InsertionCost is bit-pattern equality '
+                 'after zero padding. Modelled not verified: Rust/TinyVec semantics, get_alternatives (crate-private).')
 MANIFEST_TECHNIQUE = 'Coq proof over executable model + vm_compute differential correspondence with the Rust implementation'
